@@ -19,6 +19,7 @@ import (
 	"strings"
 	"sync"
 	"syscall"
+	"time"
 
 	"verif/harness/internal/ev"
 	"verif/harness/internal/fx"
@@ -83,6 +84,7 @@ type world struct {
 	clients []*s3c.Client
 	fatal   bool
 	encs    []encT
+	armFile string
 }
 
 func (w *world) client(i int) *s3c.Client { return w.clients[i] }
@@ -148,13 +150,18 @@ func Run(c *ev.Ctx) int {
 }
 
 func runConfig(c *ev.Ctx, cf cfgT) {
+	// a file that arms the kill switch of the gateways: while it exists, the first upload that reaches put.afterData
+	// (its body received, nothing published yet) kills the process that serves it (opKilledThenPut)
+	armFile := filepath.Join(gw.Scratch(), "c01-arm-"+cf.name)
+	os.Remove(armFile)
+	cf.gw.Env = append(append([]string{}, cf.gw.Env...), "VERIF_HOOK_ARM="+armFile, "VERIF_HOOK_CRASH=put.afterData#1")
 	env, err := fx.New("c01-"+cf.name, cf.gw, 2)
 	if err != nil {
 		c.Inconclusive("gateway start (" + cf.name + "): " + firstLine(err.Error()))
 		return
 	}
 	defer env.Close()
-	w := &world{c: c, cf: cf, env: env, clients: make([]*s3c.Client, 2), encs: allEncodings()}
+	w := &world{c: c, cf: cf, env: env, clients: make([]*s3c.Client, 2), encs: allEncodings(), armFile: armFile}
 	w.refresh(0)
 	w.refresh(1)
 	defer func() {
@@ -208,7 +215,7 @@ type keyT struct{ key, class string }
 
 type prog struct {
 	// versioned buckets: every acknowledged upload with the version id it got (for copies from non-current versions)
-	vers map[string][]verRec
+	vers   map[string][]verRec
 	w      *world
 	id     string
 	idx    int
@@ -459,6 +466,8 @@ func (p *prog) step() {
 	switch x := r.Intn(100); {
 	case x < 5:
 		p.opRefusedThenPut()
+	case x < 8:
+		p.opKilledThenPut()
 	case x < 56:
 		p.opPut()
 	case x < 74:
@@ -608,6 +617,53 @@ func (p *prog) opPut() {
 	hs := genHdrSet(r)
 	g := r.Intn(2)
 	p.doPut(k, e, body, hs, g)
+}
+
+// opKilledThenPut: the gateway process is killed while it serves an upload (body received, nothing published), it is
+// started again, and the same key is uploaded with a shorter body through either process. What the killed request
+// left behind (a named temp file, attributes written by path) must not show in the acknowledged upload.
+func (p *prog) opKilledThenPut() {
+	r, c, w := p.r, p.c(), p.w
+	k := p.pickKey()
+	for k.class == "seg256" || k.class == "conflict" {
+		k = p.pickKey()
+	}
+	g := r.Intn(2)
+	big := randBytes(r, 150000+r.Intn(250000))
+	hs := genHdrSet(r)
+	lost := &obj{body: big, etag: `"` + s3c.MD5Hex(big) + `"`, enc: "put-killed", sizeClass: sizeClass(len(big))}
+	applyHdrs(lost, hs)
+	p.logOp("killed-upload key=%q(%s) size=%d gw=%d hdrs=%s (process killed at put.afterData, restarted)", clip(k.key, 80), k.class, len(big), g, hs.class)
+	if err := os.WriteFile(w.armFile, nil, 0o644); err != nil {
+		return
+	}
+	resp := w.client(g).Do(&s3c.Req{Method: "PUT", Path: s3c.ObjPath(p.bucket, k.key), Body: big, Header: p.wireHdrs(hs, true), Watchdog: 30 * time.Second, FreshConn: true})
+	os.Remove(w.armFile)
+	c.Eval(1)
+	gwp := w.env.GWs[g]
+	died := !gwp.Alive() || gwp.WaitExit(3*time.Second)
+	// whatever the request did is unknown to the reference from here on (C11 judges the state after a crash)
+	p.histOf(k.key).absorb(lost)
+	p.drop(k.key)
+	if !died {
+		c.Observe("killed-upload: the gateway did not reach put.afterData (" + resp.String() + ")")
+		if resp.OK() {
+			// acknowledged after all: the next upload makes the key known again
+		}
+	} else {
+		if err := w.env.Restart(g); err != nil {
+			c.Inconclusive("restart after the killed upload failed: " + firstLine(err.Error()))
+			w.fatal = true
+			return
+		}
+		w.refresh(g)
+		w.refresh(1 - g)
+		p.epoch++
+		c.Add("uploads_killed", 1)
+	}
+	// the shorter upload of the same key, any encoding, either process
+	small := randBytes(r, 1+r.Intn(len(big)/3))
+	p.doPut(k, p.pickEnc(), small, genHdrSet(r), r.Intn(2))
 }
 
 // opRefusedThenPut: an upload with a full set of headers, metadata and tags that the gateway refuses late (it asks
